@@ -11,6 +11,9 @@ NPROC = int(os.environ.get('VERIF_NPROC', '16'))
 
 def _run_shard(args):
     modname, famname, seed, shard, nshards, n = args
+    from harness import cov
+
+    cov.start()
     mod = importlib.import_module(modname)
     fam = getattr(mod, famname)
     out = []
@@ -24,7 +27,7 @@ def _run_shard(args):
         where = '; '.join(f'{os.path.basename(f.filename)}:{f.lineno} {f.name}' for f in tb[-4:])
         msg = f'{type(e).__name__}: {e}'.replace('\n', ' ')[:300]
         out.append((f'crash {famname} shard={shard}', f'IMPLEMENTATION-RAISED {msg} @ {where}', f'crash-{famname}'))
-    return out
+    return out, cov.hits()
 
 
 def _match(exp, got):
@@ -46,6 +49,7 @@ class CorrResult:
         self.samples = []
         self.families = []
         self.wall = 0.0
+        self.lines_hit = set()
 
     def merge_stats(self):
         return {
@@ -76,8 +80,10 @@ def run_families(fams, seed, pool=None, keep_samples=3, max_mismatch=20):
             pool.close()
             pool.join()
     triples = []
-    for job, sh in zip(jobs, shards):
+    res.lines_hit = set()
+    for job, (sh, hit) in zip(jobs, shards):
         triples.extend((job[1],) + t for t in sh)
+        res.lines_hit |= hit
     lines = [t[1] for t in triples]
     outs = lean.driver(lines)
     seen_tag_sample = Counter()
